@@ -6,6 +6,8 @@ package capacity
 import (
 	"sort"
 
+	"github.com/shirou/gopsutil/disk"
+
 	"massnet.org/mass/poc/engine"
 )
 
@@ -99,5 +101,17 @@ func (sk *SpaceKeeper) VerifQuitClosed() bool {
 		return true
 	default:
 		return false
+	}
+}
+
+// VerifDiskFree, when set, replaces the free-bytes figure the OS reports for a directory
+// (the comparison with the figure stays the code's own).
+var VerifDiskFree func(path string) (uint64, bool)
+
+func verifDiskUsage(path string, info *disk.UsageStat) {
+	if VerifDiskFree != nil {
+		if v, ok := VerifDiskFree(path); ok {
+			info.Free = v
+		}
 	}
 }
